@@ -9,7 +9,7 @@ RULE = ("cases = (number of fields 1..3, common length, selector / concatenation
 ASSUMPTIONS = ["oracle: numpy indexing / concatenation of each field array on its own", "field contents are distinct per field and row so a misaligned entry is visible"]
 REQUIRED_FEATURES = ["three_fields", "two_dim_field", "zero_length", "mask_selector", "list_with_repeats", "mismatch_refused", "varlen_widths_differ",
                      "concat_triple", "single_entry", "astype_reordered_fields", "equality_other_field_shape", "inherited_class",
-                     "two_dim_first_field", "index_array_selector", "simultaneous_iterations", "mismatch_cancelling", "keyword_construction", "equality_nan_shared_column"]
+                     "two_dim_first_field", "index_array_selector", "simultaneous_iterations", "mismatch_cancelling", "keyword_construction", "equality_nan_shared_column", "equality_same_size_other_shape"]
 BOUNDS = {"quick": "1-3 fields (1-D int, 2-D int, 1-D float) x length 0..4 x {every int, 27 slices, lists of length<=2 incl. empty, every mask} + iteration, "
                    "concatenate pairs and triples with lengths 0..3, equality, astype to a narrower class, fields one entry longer/shorter; VarLenArray "
                    "concatenation widths 1..3 x lengths 0..2 (pairs) and triples; five field layouts with a 2-D first field; index arrays and numpy scalars; column shapes compared; simultaneous iterations; inherited dataclass",
@@ -309,6 +309,15 @@ def check(case, acc):
                 acc.fail("fields-of-different-length-accepted", "refused", o)
     elif kind == "eqself":
         _cmp(acc, "equality-self", True, lambda: bool(mk() == mk()))
+        if n >= 2:
+            # equally many ELEMENTS in columns of different shape: one entry of width n against n entries; an (n, 1) against an (n,) column
+            acc.feature("equality_same_size_other_shape")
+            v = np.arange(n) + 3
+            K1 = C[1]
+            _cmp(acc, "equality-one-wide-entry-vs-n-entries", False, lambda: bool(K1(v.reshape(1, n).copy()) == K1(v.copy())))
+            _cmp(acc, "equality-n-entries-vs-one-wide-entry", False, lambda: bool(K1(v.copy()) == K1(v.reshape(1, n).copy())))
+            c7 = np.full(n, 7)
+            _cmp(acc, "equality-(n,1)-vs-(n,)", False, lambda: bool(K1(c7.reshape(n, 1).copy()) == K1(c7.copy())))
         if k == 3 and n:
             # a NaN entry is unequal to itself: a table holding one is not equal to a table built from the very same column objects, nor to itself
             acc.feature("equality_nan_shared_column")
